@@ -57,4 +57,11 @@ def radicandsOf (wt : Rat × List Rat) : List Rat := wt.2.map (fun t => wt.1 * w
 def cornerVertex (faces : List Face) (c : Nat) : Nat := (cornerVerts faces).getD c 0
 def cornerFace (faces : List Face) (c : Nat) : Nat := (cornerFaces faces).getD c 0
 
+/-- `connectivity.face_to_first_corner(T)`: corners are numbered face after face -/
+def firstCorner (faces : List Face) (t : Nat) : Nat := ((faces.take t).map List.length).sum
+/-- `connectivity.face_to_corners(T)` -/
+def faceCorners (faces : List Face) (t : Nat) : List Nat := (List.range (faces.getD t []).length).map (fun k => firstCorner faces t + k)
+/-- `mesh.boundary_vertices` (as the increasing list of the vertices that are on the border) -/
+def boundaryVertices (faces : List Face) (nV : Nat) : List Nat := (List.range nV).filter (isBorderVertex faces)
+
 end Mouette.GeomSrc
